@@ -502,6 +502,12 @@ func (f *Frame) contractEnv(ct *FuncContract, bind map[string]string, cur, old *
 }
 
 func (f *Frame) contractCall(c *ssa.CallCommon, ct *FuncContract, callee *ssa.Function, args []Val) Val {
+	if callee != nil {
+		// the callee's contract may name heaps of its parameters' types that this function has not touched yet
+		for _, p := range callee.Params {
+			f.ex.S.registerReachable(p.Type(), 0, map[types.Type]bool{})
+		}
+	}
 	ex := f.ex
 	names := calleeNames(c, callee)
 	bind := map[string]string{}
@@ -563,7 +569,7 @@ func (f *Frame) contractCall(c *ssa.CallCommon, ct *FuncContract, callee *ssa.Fu
 	envPre := f.contractEnv(ct, bind, f.st, f.st)
 	// a function that makes no claim about panics (frame_only / may_panic) does not owe its callees'
 	// preconditions: their guarantees are then assumed only where those preconditions hold
-	frameOnly := ex.top != nil && (ex.top.FrameOnly || ex.top.MayPanic)
+	frameOnly := ex.top != nil && (ex.top.FrameOnly || ex.top.MayPanic || ex.top.NoPanicAssumed)
 	// pre_as_panic: the function under verification still claims that no panic escapes it, but does not
 	// establish its callees' preconditions: where one cannot be assumed the callee may panic (or return
 	// anything: its guarantees are assumed only under the precondition)
